@@ -293,3 +293,24 @@ CHECKS["C04"] = dict(
     assumptions=["planners flagged 'deferred cost propagation' (RRT#, RRTX, LBTRRT, LazyLBTRRT, CForest, AnytimePathShortening) are held to the "
                  "inequality only"],
 )
+
+CHECKS["C17"] = dict(
+    src="harness/C17_simplify.cpp",
+    cases=dict(quick=20000, thorough=400000),
+    rule="Case = environment and space (normal scenarios of C01: R^n, SE2, SE3, weighted compound; 0..6 obstacles) x valid input path built by "
+         "the harness {random valid polyline 1..13 states; detour hugging a ball or box obstacle at margin 0.05..0.4 (45%); tiny 1-2 state path; "
+         "polyline with repeated states / 1e-9 segments}, optionally ending at the goal x objective {length, state-cost integral, max-min clearance} "
+         "x routine {reduceVertices, partialShortcutPath, ropeShortcutPath, collapseCloseVertices, smoothBSpline, perturbPath, findBetterGoal, "
+         "simplify (counting termination condition), simplifyMax, interpolate(), interpolate(count 0..60), subdivide, PathHybridization} x generated "
+         "parameters. Every input segment passes the harness's own motion check at the space resolution and at r/4. Oracle: first state bit-identical; "
+         "last state bit-identical or (goal-aware routines) another goal state; output obeys the dense <= 2r validity oracle; shortcutting routines "
+         "never lengthen the path in a metric space, cost-aware routines never worsen their objective; simplify==true implies path.check(); "
+         "densification keeps all original vertices in order, the exact requested count, and the length; a hybridized path is not worse than the best "
+         "recorded input. Non-trivial = the routine changed the path, or the input had repeated states. Distinct = consumed byte prefix.",
+    technique="property-based testing of path post-processing with harness-built valid inputs (detour-heavy) and an independent validity / cost oracle",
+    level_text="All simplification / densification routines are driven with generated valid paths and parameters; endpoints, introduced "
+               "motions, length / cost monotonicity and exact counts are judged independently. Exploration-level.",
+    level_note="Trusted: harness geometry and cost re-computation; OMPL's RNG seed generator is re-seeded per case.",
+    assumptions=["input paths are valid at the space's resolution and at r/4 (harness-checked)",
+                 "no clause ties the boolean result of the individual routines to 'path changed' (the statement does not)"],
+)
